@@ -245,6 +245,10 @@ def gen_plan(rng, profile: dict, seed: int) -> dict:
             "clock": _gen_clock(rng, 2 * n + 8),
             "wandb": rng.random() < 0.3,
             "save": rng.random() < 0.3,
+            # hard faults in the environment: the unchanged loop lets the exception escape (then nothing more is
+            # claimed for the run); a loop that survives the fault must still satisfy every clause
+            "wandb_fail": rng.choice([None, None, {"at": rng.randint(1, 12), "kind": rng.choice(["raise", "slow"])}]),
+            "disk_fail": rng.choice([None, None, {"at": rng.randint(1, 8), "kind": rng.choice(["enospc", "eio", "short"])}]),
         }
     if mode == "real":
         ndev = rng.choice([1, 2])
@@ -504,6 +508,16 @@ def _exec_loop(plan, ctx, world, viol, bump, states_seen) -> int:
         pass
     evals = 0
     result = None
+    aborted_by_fault = False
+    wf, df = plan.get("wandb_fail"), plan.get("disk_fail")
+    if wf and plan.get("wandb"):
+        world.wandb.fail_at = {wf["at"]: wf["kind"]}
+    if df and plan.get("save"):
+        world.disk.write_faults = {df["at"]: df["kind"]}
+
+    def hard_faults():
+        return world.faults.get("net_error", 0) + world.faults.get("disk_enospc", 0) + world.faults.get("disk_eio", 0)
+
     with world, capture_stdout() as out:
         try:
             result = training.train(
@@ -528,10 +542,16 @@ def _exec_loop(plan, ctx, world, viol, bump, states_seen) -> int:
                 f"{site}/{'+'.join(sorted(hook.types))}",
             )
         except Exception as e:
-            viol("raises", f"{type(e).__name__}: {e}", site)
+            if hard_faults() > 0:
+                aborted_by_fault = True  # the injected error escaped the loop: legitimate, nothing more is claimed
+                bump("aborted_by_injected_fault")
+            else:
+                viol("raises", f"{type(e).__name__}: {e}", site)
     world.log.add("stdout", out.getvalue())
     evals = hook.calls
     bump("loop_epochs", max(0, hook.calls - 1))
+    if hard_faults() > 0 and not aborted_by_fault:
+        bump("survived_injected_fault")
     for t in hook.types:
         bump("loss_type_" + t)
     # the history the loop actually supplied to the condition; normally the scripted one. If the loop supplies
